@@ -138,6 +138,39 @@ def build_cli(case):
             shutil.rmtree(tmpd, ignore_errors=True)
 
 
+def printed_models(case, n):
+    """Models of the text `tool -of opb ...` prints (strict OPB reader of ref/c12_readers)."""
+    import io
+    import random
+    import contextlib
+    import importlib
+    import cnfgen.clitools.msg as msgmod
+    from ref import c12_readers as rd
+    tool = case.get('tool', 'cnfgen')
+    mod = importlib.import_module('cnfgen.clitools.' + tool)
+    if hasattr(msgmod, '_prefix'):
+        msgmod._prefix = ''
+    st = random.getstate()
+    buf = io.StringIO()
+    try:
+        argv = [tool, '-q', '--seed', str(case.get('seed', 1)), '-of', case['of']] + [str(x) for x in case['cli']]
+        with contextlib.redirect_stdout(buf), contextlib.redirect_stderr(io.StringIO()):
+            mod.cli(argv, mode='output')
+    finally:
+        random.setstate(st)
+        if hasattr(msgmod, '_prefix'):
+            msgmod._prefix = ''
+    N, M, cons = rd.read_opb(buf.getvalue())
+    if N != n:
+        raise ValueError('the OPB text declares %d variables, the formula has %d' % (N, n))
+    if M != len(cons):
+        raise ValueError('the OPB text announces %d constraints and has %d' % (M, len(cons)))
+    res = tt.columns(n)[0]
+    for terms, rel, deg in cons:
+        res &= tt.pb_models(n, [(c, l) for (c, l) in terms], '>=' if rel == '>=' else '==', deg)
+    return res
+
+
 def cli_reference_case(case, S):
     """The library-level case a command line denotes; graphs drawn at random
     by the command line are recovered from the published variable names and
@@ -572,6 +605,16 @@ def check_case(case, R=None):
     except ValueError as e:
         bad('literal-range', str(e))
         return out
+    if case.get('of'):
+        # the formula as the tool PRINTS it in another output format: read by
+        # the strict reference reader, it must have the same models
+        try:
+            got = printed_models(case, n)
+        except Exception as e:
+            bad('printed-%s:unreadable' % case['of'], '%s: %s' % (type(e).__name__, str(e)[:200]))
+            return out
+        if R is not None:
+            R.stats['printed_renderings_compared'] += 1
     if R is not None:
         R.nt = n > 0 and len(F) > 0
         R.stats['assignments'] += 1 << n
@@ -703,17 +746,20 @@ def cli_cases(tier, seed):
     tools = ('cnfgen', 'pbgen')
     flagsets = [[], ['--functional'], ['--onto'], ['--functional', '--onto']]
 
-    def add(fam, argv, ref, rnd=False, tools_=tools, files=None):
+    def add(fam, argv, ref, rnd=False, tools_=tools, files=None, of=None):
         for tool in tools_:
             for sd in (seeds if rnd else (1,)):
                 c = {'fam': fam, 'cli': argv, 'tool': tool, 'seed': sd, 'ref': ref}
                 if files:
                     c['files'] = files
+                if of:
+                    c['of'] = of
                 cs.append(c)
     for fl in flagsets:
         f, o = '--functional' in fl, '--onto' in fl
         for N in range(0, 4):
             add('php', ['php', N] + fl, {'kind': 'direct', 'fam': 'php', 'args': [N + 1, N, f, o]})
+            add('php', ['php', N] + fl, {'kind': 'direct', 'fam': 'php', 'args': [N + 1, N, f, o]}, of='opb')
         for M in range(0, 4):
             for N in range(0, 5):
                 if M * N <= 12:
@@ -758,6 +804,12 @@ def cli_cases(tier, seed):
         for T in range(0, 3):
             for H in range(0, 3):
                 add('rphp', ['rphp', P, T, H], {'kind': 'direct', 'fam': 'rphp', 'args': [P, T, H]})
+    for (M, N) in ((1, 0), (2, 0), (2, 1), (0, 0), (0, 2), (3, 2)):
+        add('php', ['php', M, N], {'kind': 'direct', 'fam': 'php', 'args': [M, N, False, False]}, of='opb')
+    for (M, p_) in ((1, 2), (2, 3), (0, 1), (3, 2), (4, 2)):
+        add('count', ['count', M, p_], {'kind': 'direct', 'fam': 'count', 'args': [M, p_]}, of='opb')
+    add('bphp', ['bphp', 2, 1], {'kind': 'direct', 'fam': 'bphp', 'args': [2, 1]}, of='opb')
+    add('matching', ['matching', 'empty', 3], {'kind': 'matching', 'n': 3, 'm': 0}, of='opb')
     for N in range(0, 7):
         add('count', ['parity', N], {'kind': 'direct', 'fam': 'count', 'args': [N, 2]})
     for M in range(0, 7):
